@@ -114,7 +114,7 @@ void run(size_t idx) {
 }
 
 MonReg reg({"C05", "exploration",
-			"all 304 registered block types x 14 versions; per pair 8 (quick) / 60 (thorough) populated instances synthesised by answering the library's own reader through the typed "
+			"all 304 registered block types x 36 versions (14 + 22 Fallout 3 range streams); per pair 8 (quick) / 60 (thorough) populated instances synthesised by answering the library's own reader through the typed "
 			"read hook (arrays forced non-empty in 3 of 4, optional sections biased on/off/fair). Events: every NiRef*/NiStringRef* passing through NiBlockRef<T>::Sync / "
 			"NiStringRef::Read|Write during Get and Put. Oracle: each is a member of GetChildRefs U GetPtrs resp. GetStringRefs (string indices only from 20.1.0.3), and the multiset "
 			"of GetChildIndices equals the indices of GetChildRefs. Non-trivial = instance that serialises at least one reference or string; distinct by (version,type,payload hash).",
